@@ -5,7 +5,7 @@ CONSTANTS
   Ops = {"delegate", "undelegate", "withdraw", "vote", "redelegate", "votew"}
   Amts = {0, 1, 2, 9}
   Vals = {"valid", "second", "unknown"}
-  Options = {0, 1, 3, 7, 12}
+  Options = {0, 1, 3, 7, 12, 31}
   Start = 3
   Deposit = 1
 INVARIANTS Conserved NonNegative
